@@ -107,7 +107,7 @@ pub fn sites(tier: Tier) -> Vec<Site> {
                 cells.push((l, *c));
             }
         }
-        let mut nexts: Vec<String> = vec!["L".into(), "8".into(), "^8".into(), "a".into()];
+        let mut nexts: Vec<String> = vec!["L".into(), "8".into(), "^8".into(), "a".into(), "\\".into(), "~".into(), " ".into(), "|".into()];
         for l in ENC_ORDER {
             if let Some(c) = t.forcing_char(l) {
                 nexts.push(c.to_string());
